@@ -595,6 +595,16 @@ impl Sess {
                         let v = view(&self.disk, &self.world, &self.urls, &self.cur);
                         log.count(&format!("locks_{}", v.locks.len().min(9)));
                         log.add("suffixed_names", v.locks.iter().filter(|l| l.0.len() > 1).count() as u64);
+                        {
+                            // how many sources share one declared name (suffix stripped is not possible in
+                            // general: count by the first component, the base name)
+                            let mut per: BTreeMap<u64, u64> = BTreeMap::new();
+                            for l in &v.locks {
+                                *per.entry(l.0[0]).or_insert(0) += 1;
+                            }
+                            let mx = per.values().max().copied().unwrap_or(0);
+                            log.count(&format!("same_base_name_max_{}", mx.min(5)));
+                        }
                         let req = format!("{prefix} {}", ord_token(&self.world, &root_order, Some(&v)));
                         let (imp, ora) = match t[0] {
                             "new" => (format!("ok {}", v.text), "?".to_string()),
@@ -734,12 +744,15 @@ struct Gen<'a> {
     plan: BTreeMap<(u64, u64), Vec<u64>>,
     /// malformed stream: invalid declarations, missing projects, unsatisfiable requirements
     malformed: bool,
+    clash: bool,
 }
 
 impl Gen<'_> {
     fn gen_name(&mut self) -> Vec<u64> {
-        let base = self.r.below(5);
-        match self.r.below(10) {
+        // clash stratum: (almost) every project declares its dependencies under the same one or two
+        // names, so that three, four, … different sources compete for one name (`n0`, `n0_0`, `n0_1`, …)
+        let base = if self.clash { self.r.below(2) } else { self.r.below(5) };
+        match self.r.below(if self.clash { 16 } else { 10 }) {
             0 => vec![base, 0],
             1 => vec![base, self.r.below(2), 0],
             _ => vec![base],
@@ -847,6 +860,7 @@ impl Gen<'_> {
 
 fn gen_scenario(r: &mut Rng) -> Vec<String> {
     let malformed = r.chance(1, 6);
+    let clash = r.chance(2, 5);
     let mut g = Gen {
         r,
         lines: vec!["reset".to_string()],
@@ -856,9 +870,10 @@ fn gen_scenario(r: &mut Rng) -> Vec<String> {
         npaths: 0,
         plan: BTreeMap::new(),
         malformed,
+        clash,
     };
-    let nrepos = g.r.below(4);
-    g.npaths = g.r.below(4);
+    let nrepos = if g.clash { 1 + g.r.below(2) } else { g.r.below(4) };
+    g.npaths = if g.clash { 3 + g.r.below(3) } else { g.r.below(4) };
     if nrepos == 0 && g.npaths == 0 {
         g.npaths = 2;
     }
